@@ -110,25 +110,70 @@ Qed.
 Lemma a_decl_setdecl_same a s n v f r : mem_str s (apath a) = true -> a_decl (aapply (ASetDecl s n v f r) a) s n v f = Some r.
 Proof. intro H. rewrite a_decl_aapply, H, dkey_eqb_refl. reflexivity. Qed.
 
+(* actions on tags leave the declarations alone *)
+Definition is_tag_act (x : aact) : Prop :=
+  match x with ASetTag _ _ _ _ _ | ADelTag _ _ _ _ => True | _ => False end.
+
+Lemma tag_acts_keep_decls xs : Forall is_tag_act xs ->
+  forall a s n v f, a_decl (aapply_all xs a) s n v f = a_decl a s n v f.
+Proof.
+  induction 1 as [|x xs Hx _ IH]; intros a s n v f; [reflexivity|].
+  rewrite aapply_all_cons, IH, a_decl_aapply. destruct x; cbn in Hx; try contradiction; reflexivity.
+Qed.
+
+Lemma deltags_tag_acts rs n x f : Forall is_tag_act (map (fun r => ADelTag r n x f) rs).
+Proof. apply Forall_forall. intros y Hy. apply in_map_iff in Hy. destruct Hy as [r [<- _]]. exact I. Qed.
+
+(* both orders of the tag move at once: the record (and the tag it carries), removals of the tag,
+   ONE assignment in the target stack to the declared version, removals of the tag.  The pinned order
+   has no removal after the assignment, the repaired order none before it *)
+Lemma declare_finish_shape p a f n v pl acts :
+  declare_finish p a f n v pl = Ok acts ->
+  match dp_tag pl with
+  | None => acts = declare_acts1 f n v pl
+  | Some x => exists rs rs',
+      acts = declare_acts1 f n v pl ++ map (fun r => ADelTag r n x f) rs ++
+             (ASetTag (dp_target pl) n x f v :: map (fun r => ADelTag r n x f) rs') /\
+      a_decl (aapply_all (declare_acts1 f n v pl) a) (dp_target pl) n v f <> None
+  end.
+Proof.
+  unfold declare_finish. destruct p.
+  - unfold declare_finish_old. destruct (dp_tag pl) as [x|]; [|intro H; inversion H; reflexivity].
+    cbv zeta. destruct (find_exact _ _ n v f) as [[s' r]|] eqn:Ef; [|discriminate].
+    intro H. inversion H. subst acts. apply find_exact_some in Ef. destruct Ef as [Hin Hd].
+    assert (s' = dp_target pl) by (destruct Hin as [<-|[<-|[]]]; reflexivity). subst s'.
+    rewrite (tag_acts_keep_decls _ (deltags_tag_acts _ _ _ _)) in Hd.
+    eexists. exists []. split; [reflexivity|]. rewrite Hd. discriminate.
+  - unfold declare_finish_new. destruct (dp_tag pl) as [x|]; [|intro H; inversion H; reflexivity].
+    cbv zeta. destruct (find_exact _ _ n v f) as [[s' r]|] eqn:Ef; [|discriminate].
+    intro H. inversion H. subst acts. apply find_exact_some in Ef. destruct Ef as [Hin Hd].
+    assert (s' = dp_target pl) by (destruct Hin as [<-|[<-|[]]]; reflexivity). subst s'.
+    exists []. eexists. split; [reflexivity|]. rewrite Hd. discriminate.
+Qed.
+
+Lemma declare_acts1_ok a f n v pl : mem_str (dp_target pl) (apath a) = true -> acts_ok a (declare_acts1 f n v pl).
+Proof.
+  intro Hm. unfold declare_acts1. destruct (dp_write pl); [|exact I]. cbn [acts_ok act_ok]. split; [exact I|].
+  destruct (dp_tag pl); cbn [acts_ok act_ok]; [|exact I]. split; [|exact I].
+  rewrite a_decl_setdecl_same by exact Hm. discriminate.
+Qed.
+
+Lemma deltags_not_settag rs n x f : Forall not_settag (map (fun r => ADelTag r n x f) rs).
+Proof. apply Forall_forall. intros y Hy. apply in_map_iff in Hy. destruct Hy as [r0 [<- _]]. exact I. Qed.
+
 Lemma declare_finish_ok p a f n v pl acts :
   mem_str (dp_target pl) (apath a) = true ->
   declare_finish p a f n v pl = Ok acts -> acts_ok a acts.
 Proof.
-  intros Hm. unfold declare_finish.
-  set (acts1 := if dp_write pl then _ else _).
-  assert (H1 : acts_ok a acts1).
-  { unfold acts1. destruct (dp_write pl); [|exact I]. cbn [acts_ok act_ok]. split; [exact I|].
-    destruct (dp_tag pl); cbn [acts_ok act_ok]; [|exact I]. split; [|exact I].
-    rewrite a_decl_setdecl_same by exact Hm. discriminate. }
-  destruct (dp_tag pl) as [x|]; [|intro H; inversion H; subst; exact H1].
-  set (a1 := aapply_all acts1 a). set (acts2 := map _ _). set (a2 := aapply_all acts2 a1).
-  destruct (find_exact a2 [dp_target pl; dp_target pl] n v f) as [[s' r]|] eqn:E; [|discriminate].
-  intro H. inversion H. subst acts.
+  intros Hm H. apply declare_finish_shape in H.
+  pose proof (declare_acts1_ok a f n v pl Hm) as H1.
+  destruct (dp_tag pl) as [x|]; [|subst acts; exact H1].
+  destruct H as [rs [rs' [-> Hd]]].
   apply acts_ok_app. split; [exact H1|]. apply acts_ok_app. split.
-  - apply acts_ok_trivial. unfold acts2. apply Forall_forall. intros y Hy. apply in_map_iff in Hy.
-    destruct Hy as [r0 [<- _]]. exact I.
-  - cbn [acts_ok act_ok]. split; [|exact I]. apply find_exact_some in E. destruct E as [_ E].
-    fold a1. fold a2. rewrite E. discriminate.
+  - apply acts_ok_trivial. apply deltags_not_settag.
+  - cbn [acts_ok act_ok]. split.
+    + rewrite (tag_acts_keep_decls _ (deltags_tag_acts _ _ _ _)). exact Hd.
+    + apply acts_ok_trivial. apply deltags_not_settag.
 Qed.
 
 Lemma unassign_acts_shape a o t n vo acts :
